@@ -121,6 +121,69 @@ def cmp_solve(expect, r):
     return None
 
 
+# ------------------------------------------------------------------------------------------
+# staged comparison: every property compares the stage of the pipeline it is about, and only on cases where
+# the stages before it (its inputs) agree with the model -- a difference upstream is another property's
+# business and is reported by that property's check, not by this one
+#   outcome -> probs -> reachstrat -> nodes -> rewards -> final -> diag
+# ------------------------------------------------------------------------------------------
+STAGES = ("outcome", "probs", "reachstrat", "nodes", "rewards", "final", "diag")
+
+
+def stage_diffs(expect, r):
+    """{stage: message} for every stage on which implementation and model differ; works for the answers of the
+    driver ops reach, prune and solve"""
+    d = {}
+    eo, mo = expect["outcome"], r.get("outcome")
+    if eo != mo:
+        d["outcome"] = f"outcome {eo} vs model {mo}"
+        return d
+    if eo != "ok":
+        return d
+    if "res" in expect:                                   # impl.solve
+        res = expect["res"]
+        probs, rstrat = res[3], res[1]
+        mstrat = r.get("reachstrat")
+        if "rewards" in r and not vec_close(res[2], dec_vec(r["rewards"])):
+            d["rewards"] = "rewards differ"
+        if "final" in r and res[0] != r["final"]:
+            d["final"] = "final strategies differ"
+        if "probminrew" in r and not vec_close(res[6], dec_vec(r["probminrew"])):
+            d["diag"] = "'probabilities under minimal reward' differ"
+        elif "rewminreach" in r and not vec_close(res[7], dec_vec(r["rewminreach"])):
+            d["diag"] = "'rewards under minimal reachability' differ"
+    else:                                                 # impl.reach_only / impl.prune_only
+        probs, rstrat = expect["probs"], expect["strats"]
+        mstrat = r.get("strats")
+    if not vec_close(probs, dec_vec(r["probs"])):
+        d["probs"] = "probabilities differ"
+    if mstrat is not None and rstrat != mstrat:
+        d["reachstrat"] = "reachability strategies differ"
+    if expect.get("nodes") is not None and r.get("nodes") is not None:
+        nd = nodes_diff(expect["nodes"], r["nodes"])
+        if nd:
+            d["nodes"] = "conditioned lists: " + nd
+    return d
+
+
+def staged(ctx, own, upstream=()):
+    """comparator for ModelClient.add: report a difference in one of the `own` stages unless a stage in
+    `upstream` already differs (counted, not reported)"""
+    def cmp(expect, r):
+        if expect["outcome"] == "Timeout":
+            return None            # wall-clock dependent: judged by the oracles of C06/C11, never by the correspondence
+        d = stage_diffs(expect, r)
+        for s in upstream:
+            if s in d:
+                ctx.count("upstream_stage_differs_not_this_property:" + s)
+                return None
+        for s in STAGES:
+            if s in own and s in d:
+                return d[s]
+        return None
+    return cmp
+
+
 def soft_iters(expect, r):
     """iteration counts: informational only (a harmless re-ordering of a sweep changes them)"""
     if expect["outcome"] == "ok" and r.get("outcome") == "ok":
